@@ -17,7 +17,7 @@ Events of different streams interleave arbitrarily (an event is atomic: one call
 -/
 namespace MosnVerif.Model.FilterInst
 
-def set {β : Type} (f : Nat → β) (a : Nat) (b : β) : Nat → β := fun x => if x = a then b else f x
+def setAt {β : Type} (f : Nat → β) (a : Nat) (b : β) : Nat → β := fun x => if x = a then b else f x
 
 /-- static parameters of a run: which filter ids have a registered type, which factories allocate per call, the phase a
 filter id registers for (0,1,2), what each filter decides about each stream's request, the regenerated UpdateFactory -/
@@ -54,7 +54,7 @@ def inst (p : P) (s : Nat) : List Nat → Nat → (Nat → Nat) → List (Nat ×
   | k :: ks, n, h =>
     let o := if p.fresh k then 2 * n + 1 else 2 * k
     let n' := if p.fresh k then n + 1 else n
-    let r := inst p s ks n' (set h o s)
+    let r := inst p s ks n' (setAt h o s)
     ((k, o) :: r.1, r.2.1, r.2.2)
 
 /-- one phase pass of stream `s`: the write a denying filter makes (stream whose handler its object holds, code), log -/
@@ -71,7 +71,7 @@ def runFrom (p : P) (s : Nat) (handler : Nat → Nat) (ch : List (Nat × Nat)) :
   | ph :: phs, pend, log =>
     let r := runPhase p s handler (ch.filter (fun ko => p.phase ko.1 == ph)) log
     let pend' := match r.1 with
-      | some tc => set pend tc.1 (some tc.2)
+      | some tc => setAt pend tc.1 (some tc.2)
       | none => pend
     match pend' s with
     | some c => (pend', (r.2, some c))
@@ -86,20 +86,20 @@ def stepS (p : P) (pub : Nat → Option (List Nat)) (st : S) : Ev → S
     | some _ => st
     | none =>
       let r := inst p s ((pub l).getD []) st.next st.handler
-      { st with chain := set st.chain s (some r.1), next := r.2.1, handler := r.2.2 }
+      { st with chain := setAt st.chain s (some r.1), next := r.2.1, handler := r.2.2 }
   | .run s =>
     match st.chain s, st.out s with
     | some ch, none =>
       let r := runFrom p s st.handler ch phases st.pending []
-      { st with pending := r.1, out := set st.out s (some r.2) }
+      { st with pending := r.1, out := setAt st.out s (some r.2) }
     | _, _ => st
 
 def stepPub (p : P) (pub : Nat → Option (List Nat)) : Ev → Nat → Option (List Nat)
   | .upd l cfg =>
     let new := cfg.filter p.known
     match pub l with
-    | none => set pub l (some new)                   -- NewStreamFilterFactory(config)
-    | some old => set pub l (some (p.upd old new))   -- factory.UpdateFactory(config)
+    | none => setAt pub l (some new)                   -- NewStreamFilterFactory(config)
+    | some old => setAt pub l (some (p.upd old new))   -- factory.UpdateFactory(config)
   | _ => pub
 
 def step (p : P) (w : W) (e : Ev) : W := { pub := stepPub p w.pub e, st := stepS p w.pub w.st e }
